@@ -24,6 +24,7 @@ def runX (at_ : Nat) (k : Kind) (c : Chan (DS × List Bytes)) (x : Xfer) : Chan 
     match upload (dpeer at_ k) c i j t 100000 with
     | (c', .ok d) => (c', s!"ok {toHex d}")
     | (c', .error e) => (c', showErr e)
+  | .upInto i j sizes => runInto (dpeer at_ k) c i j sizes
 
 def runAllX (at_ : Nat) (k : Kind) : Chan (DS × List Bytes) → List Xfer → List String → Chan (DS × List Bytes) × List String
   | c, [], acc => (c, acc)
